@@ -47,8 +47,10 @@ static std::vector<std::uint64_t> critical_raws(std::vector<long double> const& 
         // neighbours on the lattice of T
         T t = static_cast<T>(ci);
         T lo = t, hi = t;
-        for (int d = 0; d <= 3; ++d)
+        for (int d = 0; d <= 1024; ++d)
         {
+            // steps 0..3 and then 16, 64, 256, 1024 units in the last place away from the boundary
+            if (d > 3 && d != 16 && d != 64 && d != 256 && d != 1024) { lo = std::nextafter(lo, T(-1)); hi = std::nextafter(hi, T(2)); continue; }
             for (T cand : {lo, hi})
             {
                 long double const sc = std::ldexp(static_cast<long double>(cand), 64);
@@ -97,6 +99,33 @@ static std::string judge(std::vector<T> const& w, std::vector<long double> const
         return o.str();
     }
     return "";
+}
+
+template <typename T>
+static void part_a_vector(report& r, std::vector<T> const& w)
+{
+    sz const len = w.size();
+    bool haszero = false;
+    for (T v : w) haszero |= v == T();
+    std::string const wid = std::string("dd ") + vf::type_name<T>() + " w=" + vf::join_dec(w);
+    if (!r.want_prefix(wid.substr(0, 3))) return;
+    auto const c = cumulative(w);
+    hep::discrete_distribution<sz, T> dist(w.begin(), w.end());
+    for (std::uint64_t x : critical_raws<T>(c))
+    {
+        std::string const id = wid + " x=" + std::to_string(x);
+        if (!r.want(id)) continue;
+        r.eval();
+        vf::script_engine::table() = {x};
+        vf::script_engine e1, e2;
+        T const u = std::generate_canonical<T, std::numeric_limits<T>::digits>(e1);
+        sz const ch = dist(e2);
+        std::string key;
+        std::string const bad = judge(w, c, u, ch, key);
+        if (!bad.empty()) r.violate(key, id, wid + " u=" + vf::dec(u) + ": " + bad);
+        if (haszero) r.distinct(vf::hash_str(id));
+        r.outcome("selected (len,channel)", (len << 8) | ch);
+    }
 }
 
 template <typename T>
@@ -298,6 +327,17 @@ static void all_for_type(report& r, bool thorough)
 {
     std::vector<T> const alphabet = {T(0), T(1), T(2), T(3), T(0.1L), T(1) / T(3), T(1e-3L)};
     part_a<T>(r, alphabet, 4);
+
+    // long weight vectors (5..48 channels): all equal, one zero at every position, alternating zeros, increasing
+    for (sz len = 5; len <= 48; ++len)
+    {
+        std::vector<std::vector<T>> pats;
+        pats.push_back(std::vector<T>(len, T(1)));
+        { std::vector<T> w(len); for (sz i = 0; i != len; ++i) w[i] = T(i + 1); pats.push_back(w); }
+        { std::vector<T> w(len, T(1)); for (sz i = 0; i < len; i += 2) w[i] = T(0); pats.push_back(w); }
+        for (sz z = 0; z != len; ++z) { std::vector<T> w(len, T(1)); w[z] = T(0); if (z + 1 < len) w[z + 1] = T(3); pats.push_back(w); }
+        for (auto const& w : pats) part_a_vector<T>(r, w);
+    }
 
     if (r.want_prefix("mc "))
     {
